@@ -150,6 +150,11 @@ func InstallPropertyOrder(ord *Orderer) func() {
 			keys = append(keys, k)
 		}
 		sort.Strings(keys)
+		if len(keys) <= 1 {
+			// one group: nothing to order, and the hook hands on what it was given (a copy made
+			// here would hide what the callers of GetAllProperties do to the list they receive)
+			return props
+		}
 		idx := ord.Order("order:props", keys)
 		out := make([]*component_definition.Property, 0, len(props))
 		for _, k := range idx {
